@@ -3,13 +3,18 @@
 use crate::report::Ctx;
 use serde_json::Value;
 
+pub mod c14;
 pub mod c17;
 
 /// (property id, evidence level, check function)
-pub const REGISTRY: &[(&str, &str, fn(&mut Ctx))] = &[("C17", "model_checking", c17::run)];
+pub const REGISTRY: &[(&str, &str, fn(&mut Ctx))] = &[
+    ("C14", "model_checking", c14::run),
+    ("C17", "model_checking", c17::run),
+];
 
 pub fn replay(id: &str, case: &Value) -> Result<String, String> {
     match id {
+        "C14" => c14::replay(case),
         "C17" => c17::replay(case),
         _ => Err(format!("no replayer for {id}")),
     }
